@@ -7,6 +7,19 @@ ROOT = os.path.dirname(os.path.dirname(os.path.abspath(__file__)))
 sys.path.insert(0, ROOT); sys.path.insert(0, '/repo')
 ids = [json.loads(l)['id'] for l in open(os.path.join(ROOT, 'properties.jsonl'))]
 NOT_YET = 'check not built yet in this round (planned in DESIGN.md section 3); no claim is made'
+def _enum_note(m):
+    cfg = getattr(m, 'CORPUS_PREEMPTIONS', None)
+    if cfg is None:
+        return ''
+    t = ('; bounded schedule enumeration around the regression corpus (every single forced thread switch in the quick tier, '
+         'every pair within 12 decisions in the thorough tier')
+    if cfg.get('stalls'):
+        t += '; every single delay injection of %s virtual seconds' % '/'.join(map(str, cfg['stalls']))
+    if cfg.get('stagger'):
+        t += '; staggered delays of two threads at one source line'
+    return t + ')'
+
+
 checks, na = [], []
 for pid in ids:
     p = os.path.join(ROOT, 'vf', 'props', pid.lower() + '.py')
@@ -23,7 +36,7 @@ for pid in ids:
         'level_claimed': {'category': m.LEVEL, 'text': m.LEVEL_TEXT if hasattr(m, 'LEVEL_TEXT') else m.RULE,
                           'design_ref': 'DESIGN.md section 3, ' + pid},
         'level_note': '; '.join(m.ASSUMPTIONS),
-        'technique': m.TECHNIQUE,
+        'technique': m.TECHNIQUE + _enum_note(m),
     })
 man = {
     'version': 1,
